@@ -318,10 +318,17 @@ class P:
         return e
 
     def rel(self):
-        e = self.unary()
+        e = self.additive()
         while self.peek()[1] in ("<", ">", "<=", ">="):
             op = self.next()[1]
-            e = ("cmp", op, e, self.unary())
+            e = ("cmp", op, e, self.additive())
+        return e
+
+    def additive(self):
+        e = self.unary()
+        while self.peek()[1] == "+":
+            self.next()
+            e = ("add", e, self.unary())
         return e
 
     def unary(self):
@@ -469,6 +476,12 @@ class Gen:
             if ty1 != "nat" or ty2 != "nat":
                 raise Unsupported("ordering comparison on non-numbers")
             return p1, "(%s %s %s)" % (t1, op, t2), "prop"
+        if k == "add":
+            p1, t1, ty1 = self.ex(e[1])
+            p2, t2, ty2 = self.ex(e[2])
+            if p1 or p2 or ty1 != "nat" or ty2 != "nat":
+                raise Unsupported("addition of non-numbers or with side effects")
+            return [], "(%s + %s)" % (t1, t2), "nat"
         if k == "preinc":
             tgt = e[1]
             if tgt[0] != "id" or tgt[1] not in self.spec["members"]:
@@ -735,6 +748,161 @@ def enum_members(text, name):
     return [p.strip() for p in body.split(",") if p.strip()]
 
 
+# ------------------------------------------------------------------------------------------------
+# mode 2: functions that thread the input iterator through sub-parsers (message_headers::parse)
+
+SPEC_MH = {
+    "cls": "message_headers", "file": "http/headers.hpp", "struct": "MH", "ns": "GenMH", "enum": "Header",
+    "members": {"blank_cr_": ("blankCr", "bool"), "number_": ("number", "nat"), "length_": ("length", "nat"),
+                "valid_": ("valid", "bool")},
+    "consts": {"MAX_HEADER_LENGTH": ("cfg.maxHdrLen", "nat"), "MAX_HEADER_NUMBER": ("cfg.maxHdrNum", "nat"),
+               "STRICT_CRLF": ("cfg.strict", "bool")},
+    # member sub-objects: C++ member -> (field of the model record, class spec of the sub-object, its translated parse)
+    "subobjects": {"field_": ("field", "field_line", "GenFL")},
+    # member functions of this class that are mapped to model functions by name (not translated): trusted
+    "helpers": {"add": ("let s := { s with fields := s.fields.add %s %s }", ["bytes", "bytes"])},
+}
+
+
+def accessor_expr(text, cls, name):
+    """the expression of a one-line accessor `T name() const noexcept { return <expr>; }` of class cls"""
+    m = re.search(r"\bclass\s+%s\b" % cls, text)
+    if not m:
+        raise Unsupported("class %s not found" % cls)
+    m2 = re.compile(r"\b%s\s*\(\s*\)\s*const\s*(?:noexcept)?\s*\{\s*return\s+([^;{}]*);\s*\}" % re.escape(name)).search(text, m.end())
+    if not m2:
+        raise Unsupported("accessor %s::%s() is not a one-line `return <expr>;`" % (cls, name))
+    p = P(lex(m2.group(1)))
+    e = p.expr()
+    if p.peek()[0] != "eof":
+        raise Unsupported("accessor %s::%s(): trailing tokens" % (cls, name))
+    return e
+
+
+class Gen2(Gen):
+    """statements and expressions over (state `s`, remaining input `it`); results are triples (s, it, returned bool)"""
+
+    def __init__(self, spec, text, sub_specs):
+        Gen.__init__(self, spec, [])
+        self.text = text
+        self.sub_specs = sub_specs
+        self.it = "it"
+
+    def sub_gen(self, member):
+        field, cls, ns = self.spec["subobjects"][member]
+        base = self.sub_specs[cls]
+        spec = dict(base)
+        spec["members"] = {k: (field + "." + f, ty) for k, (f, ty) in base["members"].items()}
+        g = Gen(spec, [])
+        return g, field, cls, ns
+
+    def ex(self, e):
+        k = e[0]
+        if k == "call" and e[1][0] == "member" and e[1][1][0] == "id" and e[1][1][1] in self.spec["subobjects"]:
+            member, meth = e[1][1][1], e[1][2]
+            g, field, cls, ns = self.sub_gen(member)
+            if meth == "parse":
+                if e[2] != [("id", "iter"), ("id", "end")]:
+                    raise Unsupported("sub-parser called with something other than (iter, end)")
+                return (["let r := %s.parse cfg s.%s it" % (ns, field), "let s := { s with %s := r.1 }" % field, "let it := r.2.1"],
+                        "r.2.2", "bool")
+            if e[2]:
+                raise Unsupported("accessor with arguments: %s" % meth)
+            ae = accessor_expr(self.text, cls, meth)
+            # a plain data accessor `return member_;`
+            return g.ex(ae)
+        return Gen.ex(self, e)
+
+    def effect(self, st):
+        if st[0] == "expr":
+            e = st[1]
+            if e == ("preinc", ("id", "iter")):
+                return ["let it := it.drop 1"]
+            if e[0] == "call" and e[1][0] == "member" and e[1][1] in [("id", m) for m in self.spec["subobjects"]] and e[1][2] == "clear" and not e[2]:
+                field = self.spec["subobjects"][e[1][1][1]][0]
+                return ["let s := { s with %s := {} }" % field]
+            if e[0] == "call" and e[1][0] == "id" and e[1][1] in self.spec["helpers"]:
+                tmpl, tys = self.spec["helpers"][e[1][1]]
+                if len(e[2]) != len(tys):
+                    raise Unsupported("arity of helper " + e[1][1])
+                pre, args = [], []
+                for a, ty in zip(e[2], tys):
+                    p, t, aty = self.ex(a)
+                    if aty != ty:
+                        raise Unsupported("helper %s argument type %s" % (e[1][1], aty))
+                    pre += p
+                    args.append(t)
+                return pre + [tmpl % tuple(args)]
+        return Gen.effect(self, st)
+
+    def stmts(self, stmts, k_end):
+        """k_end: Lean term used when control falls off the end (None = must not happen)"""
+        if not stmts:
+            return k_end
+        st, rest = stmts[0], stmts[1:]
+        k = st[0]
+        if k == "while":
+            raise Unsupported("nested loop")
+        if not may_exit(st):
+            lines = self.effect(st)
+            tail = self.stmts(rest, k_end)
+            if tail is None:
+                return None
+            return self.seq(lines, tail) if lines else tail
+        if k == "return":
+            p, t, ty = self.ex(st[1])
+            return self.seq(p, "(s, it, %s)" % self.as_bool(t, ty))
+        if k == "block":
+            return self.stmts(st[1] + rest, k_end)
+        if k == "if":
+            p, t, ty = self.ex(st[1])
+            th = self.stmts([st[2]] + rest, k_end)
+            el = self.stmts(([st[3]] if st[3] is not None else []) + rest, k_end)
+            if th is None or el is None:
+                return None
+            return self.seq(p, "(if %s then %s else %s)" % (self.cond(t, ty), th, el))
+        raise Unsupported("statement %r in an iterator-threading function" % (k,))
+
+
+def translate_mh(sub_specs):
+    spec = SPEC_MH
+    with open(os.path.join(INC, spec["file"]), encoding="latin-1") as f:
+        text = f.read()
+    body = function_body(text, spec["cls"], r"\bbool\s+parse\s*\(\s*ForwardIterator\s*&\s*iter\s*,\s*ForwardIterator\s+end\s*\)")
+    p = P(lex(body))
+    st = p.stmt()
+    if p.peek()[0] != "eof" or st[0] != "block":
+        raise Unsupported("trailing tokens after message_headers::parse")
+    stmts = st[1]
+    idx = [i for i, x in enumerate(stmts) if x[0] == "while"]
+    if len(idx) != 1 or idx[0] != 0:
+        raise Unsupported("message_headers::parse: expected `while (...) {...}` followed by straight-line code")
+    loop, post = stmts[0], stmts[1:]
+    g = Gen2(spec, text, sub_specs)
+    tail = g.stmts(post, None)
+    if tail is None:
+        raise Unsupported("message_headers::parse can fall off its end")
+    pc, tc, tyc = g.ex(loop[1])
+    if pc:
+        raise Unsupported("side effect in the loop condition")
+    body_stmts = loop[2][1] if loop[2][0] == "block" else [loop[2]]
+    bt = g.stmts(body_stmts, "GenMH.parseLoop cfg fuel s it")
+    ns, S = spec["ns"], spec["struct"]
+    out = ["import ViaGen.FL\n/-\n  GENERATED by tools/cxx2lean.py from message_headers::parse in include/via/http/headers.hpp of /repo's CURRENT tree\n"
+           "  (and the one-line accessors of field_line it calls).  Do not edit.  ViaProofs/Trans/MH.lean proves the hand-written\n"
+           "  model equal to this translation.  The loop calls a sub-parser that consumes a variable amount of input, so it is\n"
+           "  translated with a fuel argument (initially: input length + 2); the proof shows the fuel never runs out.\n-/\n"
+           "set_option linter.unusedVariables false\nnamespace Via\n",
+           "/-- the code after the loop of `message_headers::parse` (the blank line) -/\n"
+           "def %s.parseTail (cfg : Cfg) (s : %s) (it : Bytes) : %s × Bytes × Bool :=\n  %s\n" % (ns, S, S, tail),
+           "def %s.parseLoop (cfg : Cfg) : Nat → %s → Bytes → %s × Bytes × Bool\n"
+           "  | 0, s, it => (s, it, false)\n"
+           "  | fuel + 1, s, it =>\n    if %s then\n      %s\n    else %s.parseTail cfg s it\n" % (ns, S, S, g.cond(tc, tyc), bt, ns),
+           "def %s.parse (cfg : Cfg) (s : %s) (buf : Bytes) : %s × Bytes × Bool :=\n  %s.parseLoop cfg (buf.length + 2) s buf\n" % (ns, S, S, ns),
+           "end Via\n"]
+    return "\n".join(out)
+
+
 IMPORTS = {"RL": "ViaModel.ReqLine", "SL": "ViaModel.RespLine", "FL": "ViaModel.Headers", "CH": "ViaModel.Chunk"}
 
 
@@ -793,6 +961,19 @@ def main():
             with open(out, "w") as f:
                 f.write(text)
         print("ViaGen/%s.lean: %d lines" % (spec["struct"], text.count("\n")))
+    out = os.path.join(OUTDIR, "MH.lean")
+    try:
+        text = translate_mh({c["cls"]: c for c in CLASSES})
+        old = open(out).read() if os.path.exists(out) else None
+        if old != text:
+            with open(out, "w") as f:
+                f.write(text)
+        print("ViaGen/MH.lean: %d lines" % text.count("\n"))
+    except (Unsupported, OSError, ValueError, IndexError, KeyError) as e:
+        if os.path.exists(out):
+            os.remove(out)
+        sys.stderr.write("cxx2lean: cannot translate message_headers::parse: %s\n" % (e,))
+        failed += 1
     sys.exit(1 if failed else 0)
 
 
